@@ -6,7 +6,7 @@
 //              user-provided and not noexcept (is_nothrow_default_constructible<X> is false)
 //   variant 1: X = long (scalar: default-initialisation is NOT value-initialisation).  Programs of this variant
 //              contain no const X& setter and no fulfillAllPromises (the model would expect their copies).
-// ops: 0 kind key slot     slot = getFuture(key).share()        kind 0: int key, else string key "n%09d"
+// ops: 0 kind key slot     slot = getFuture(key).share()        kind 0: int key, else string key with id k: "k" (k < 10) or "n%09d"
 //      1 kind key v        setDelayedValue(key, const X&)
 //      2 kind key v        setDelayedValue(key, X&&)
 //      3 v                 fulfillAllPromises(X(v))   - an rvalue argument, as callers write it
@@ -24,11 +24,38 @@
 #include "vpay.hpp"
 #include "delayedobjects_extra.hpp"
 #define std vstd
+#ifndef VS_NO_PEEK
 #define private public  // harness-side only: lets final() and the lockset hook read the maps without an event
+#endif
 #include "gmlc/concurrency/DelayedObjects.hpp"
 #undef private
 #undef std
 #include "driver.hpp"
+
+// Peeks at the private state, robust against a header that no longer has a member (SFINAE: an absent map is
+// skipped / counts as empty, an absent lock as "held"); with -DVS_NO_PEEK no private member is mentioned at all.
+#ifndef VS_NO_PEEK
+#define DO_PEEK(NAME, MEMBER)                                                          \
+    template<class C, class F>                                                         \
+    auto NAME(C& c, F f, int)->decltype((void)c.MEMBER, void()) { f(c.MEMBER); }       \
+    template<class C, class F>                                                         \
+    void NAME(C&, F, long) {}
+DO_PEEK(peek_pI, promiseByInteger)
+DO_PEEK(peek_pS, promiseByString)
+DO_PEEK(peek_uI, usedPromiseByInteger)
+DO_PEEK(peek_uS, usedPromiseByString)
+#undef DO_PEEK
+template<class C>
+auto peek_owner(C& c, int) -> decltype((long)c.promiseLock.owner) { return (long)c.promiseLock.owner; }
+template<class C>
+long peek_owner(C&, long) { return -2; }
+#else
+template<class C, class F> void peek_pI(C&, F, long) {}
+template<class C, class F> void peek_pS(C&, F, long) {}
+template<class C, class F> void peek_uI(C&, F, long) {}
+template<class C, class F> void peek_uS(C&, F, long) {}
+template<class C> long peek_owner(C&, long) { return -2; }
+#endif
 
 constexpr long MOVED = -7777;
 
@@ -67,19 +94,23 @@ struct Core {
         vs::promise_hook() = [this](const void* p) {
             if (!cont) return;
             bool inside = false;
-            for (auto& e : cont->promiseByInteger) inside |= ((const void*)&e.second == p);
-            for (auto& e : cont->promiseByString) inside |= ((const void*)&e.second == p);
-            for (auto& e : cont->usedPromiseByInteger) inside |= ((const void*)&e.second == p);
-            for (auto& e : cont->usedPromiseByString) inside |= ((const void*)&e.second == p);
-            if (inside && cont->promiseLock.owner != vs::Sched::self()) vs::S().emit(vs::K_FAULT, nullptr, 7);
+            auto look = [&](auto& m) { for (auto& e : m) inside |= ((const void*)&e.second == p); };
+            peek_pI(*cont, look, 0);
+            peek_pS(*cont, look, 0);
+            peek_uI(*cont, look, 0);
+            peek_uS(*cont, look, 0);
+            const long own = peek_owner(*cont, 0);
+            if (inside && own != -2 && own != vs::Sched::self()) vs::S().emit(vs::K_FAULT, nullptr, 7);
         };
     }
     ~Core() { vs::promise_hook() = nullptr; }
-    // zero-padded: the lexicographic order of the names is the numeric order of the keys (0 <= key < 10^9)
+    // the string key with id k: the decimal text of k for 0 <= k < 10 (so that it is what an integer key k would
+    // be called if somebody stored integers under their names), "n%09d" above; either way the lexicographic
+    // order of the names is the numeric order of the ids (0 <= k < 10^9)
     static std::string name(long key)
     {
         char b[32];
-        std::snprintf(b, sizeof b, "n%09ld", key);
+        if (key >= 0 && key < 10) std::snprintf(b, sizeof b, "%ld", key); else std::snprintf(b, sizeof b, "n%09ld", key);
         return b;
     }
     static long peek_get(std::shared_future<XT>& f)
@@ -163,10 +194,12 @@ struct Core {
     }
     void final(std::vector<std::vector<long>>& out)
     {
-        out.push_back({100, (long)cont->promiseByInteger.size(), (long)cont->promiseByString.size(),
-                       (long)cont->usedPromiseByInteger.size(), (long)cont->usedPromiseByString.size(),
-                       vs::plan().calls});
-        const long st = count_stale(cont->promiseByInteger) + count_stale(cont->promiseByString);
+        long nI = 0, nS = 0, uI = 0, uS = 0, st = 0;
+        peek_pI(*cont, [&](auto& m) { nI = (long)m.size(); st += count_stale(m); }, 0);
+        peek_pS(*cont, [&](auto& m) { nS = (long)m.size(); st += count_stale(m); }, 0);
+        peek_uI(*cont, [&](auto& m) { uI = (long)m.size(); }, 0);
+        peek_uS(*cont, [&](auto& m) { uS = (long)m.size(); }, 0);
+        out.push_back({100, nI, nS, uI, uS, vs::plan().calls});
         if (st > 0) {
             // ~DelayedObjects would call set_value on a moved-from promise: std::future_error in a
             // destructor = std::terminate.  Report it and leave the container alone.
